@@ -14,6 +14,7 @@ import (
 var ExpressionParser ExpressionParserInterface
 
 func InitExpressionParser() {
+	verifYield("InitExpressionParser")
 	if ExpressionParser == nil {
 		ExpressionParser = newExpressionParser()
 	}
